@@ -1,8 +1,10 @@
 SPECIFICATION TSpec
 CONSTANTS
   FIXED = TRUE
+  CHECK_WORK = FALSE
   CHECK_LEAKS = TRUE
 INVARIANTS RefsAreOwners HeadersAtBoundaries NormalIsBasic DeferredOrdered DeferOnlyAtEnd DecoderOnlyForNormal
 PROPERTIES EofStickyT
+VIEW TView
 POSTCONDITION Accepted
 CHECK_DEADLOCK FALSE
